@@ -134,12 +134,16 @@ def run_history(make, root, ops, tail=True):
     for i, op in enumerate(ops):
         for sig, msg in w.apply(op):
             out.append((sig, msg, i))
+        if out:
+            return w, out, None  # model and implementation are out of step from here on
     fp = None
     if tail:
         fp = []
         for j, op in enumerate(w.tail()):
             for sig, msg in w.apply(op):
                 out.append((sig, "%s [probe tail #%d %r after the history]" % (msg, j, op), len(ops) + j))
+            if out:
+                break
             fp.append(w.last)
         fp = tuple(fp)
     return w, out, fp
@@ -151,12 +155,10 @@ def explore(make, roots, depth, env, label, describe=None):
     res = {"evals": 0, "states": 0, "transitions": 0, "nontrivial": 0, "counters": {}, "samples": [], "violations": []}
     cnt = res["counters"]
     seen = {}  # canon -> probe tail fingerprint of the first history that reached it
-    nviol = [0]
 
     best = {}  # sig -> the shortest violating histories (at most PER_SIG)
 
     def viol(sig, msg, root, ops, extra=()):
-        nviol[0] += 1
         cnt["violating histories"] = cnt.get("violating histories", 0) + 1
         lst = best.setdefault(sig, [])
         if len(lst) >= PER_SIG and len(ops) >= lst[-1][0]:
@@ -169,7 +171,8 @@ def explore(make, roots, depth, env, label, describe=None):
         del lst[PER_SIG:]
 
     def execute(root, prefix, op, c0=None):
-        """fresh world, replay prefix, apply op (judged), probe tail (judged). -> (canon, menu, ok, nontrivial)"""
+        """fresh world, replay prefix, apply op (judged), probe tail (judged).
+        -> (canon, menu, extend this state?, history and tail free of violations?, nontrivial, tail fingerprint)"""
         w = make(root)
         for p in prefix:
             w.apply(p)  # judged when this prefix was the frontier of the previous level
@@ -187,7 +190,8 @@ def explore(make, roots, depth, env, label, describe=None):
         for sig, msg in bad[:3]:
             viol(sig, msg, root, ops)
         fp = []
-        tail = tuple(w.tail())
+        # after a violating operation model and implementation are out of step: no probe tail
+        tail = tuple(w.tail()) if ok else ()
         for j, t in enumerate(tail):
             tb = w.apply(t)
             # a violation met in the probe tail is reported as the plain history prefix + tail operations
@@ -204,6 +208,20 @@ def explore(make, roots, depth, env, label, describe=None):
         for k, v in w.stats.items():
             cnt[k] = cnt.get(k, 0) + v
         return c, menu, not bad, ok, nt, fp
+
+    _execute = execute
+
+    def execute(root, prefix, op, c0=None):
+        # an exception escaping from the harness itself (possible only when the library misbehaves in a way the
+        # world did not foresee) is reported as a violation of the executed history, not as a harness failure
+        try:
+            return _execute(root, prefix, op, c0)
+        except Exception:
+            import traceback
+            ops = prefix if op is None else prefix + (op,)
+            viol("harness-exception", "executing the history failed inside the harness: %s" % traceback.format_exc()[-600:], root, ops)
+            res["evals"] += 1
+            return ("harness-exception", root, ops), [], False, False, False, ()
 
     frontier = []
     t_last = time.time()
